@@ -126,3 +126,5 @@ func briefBag(b map[string]int) string {
 	sort.Strings(keys)
 	return brief(keys)
 }
+
+func splitRowKey(k string) []string { return strings.Split(k, " | ") }
